@@ -37,7 +37,7 @@ let rec take c n = if n = 0 then [] else let x = next c in x :: take c (n - 1)
 type gridv = { gcgs : Grid.cg list; ggens : Grid.ggen list }
 type polyv = { s : Widen.sys; lin : int }
 type value = VG of gridv | VP of polyv
-type obj = { d : string; dim : int; flags : string; v : value; ok : int; w : string; args : int list }
+type obj = { d : string; dim : int; flags : string; v : value; ok : int; w : string; args : int list; tok : int }
 
 let read_wcon c dim =
   let k = (match next c with "=" -> Widen.EQ | ">=" -> Widen.GE | ">" -> Widen.GT | k -> raise (Syntax ("kind " ^ k))) in
@@ -73,7 +73,7 @@ let parse_st tag line =
     end in
   expect c "ok"; let ok = nexti c in
   let v = (match v, c.t with VP p, "lin" :: k :: _ -> VP { p with lin = int_of_string k } | _ -> v) in
-  id, { d; dim; flags; v; ok; w = ""; args = [] }
+  id, { d; dim; flags; v; ok; w = ""; args = []; tok = -1 }
 
 (* ---- verified decisions under a time budget ---- *)
 exception Timeout
@@ -103,6 +103,10 @@ let equiv a b = oand (incl a b) (incl b a)
 let dd_ok (o : obj) = match o.v with
   | VG x -> (match timed (fun () -> Grid.dd_agree (GZ.nat_of_int o.dim) x.gcgs (Grid.gens_of_ppl x.ggens)) Grid.Unk with Grid.Ans b -> Some b | Grid.Unk -> None)
   | VP _ -> Some true
+(* the object denotes the empty set (decided from the constraints / congruences the library printed) *)
+let is_empty_obj (o : obj) : bool option = match o.v with
+  | VP p -> (match timed (fun () -> Widen.nonempty_sys (WZ.nat_of_int (o.dim + 1)) p.s) None with Some b -> Some (not b) | None -> None)
+  | VG g -> (match timed (fun () -> Grid.cgs_to_gens (GZ.nat_of_int o.dim) g.gcgs) Grid.Unk with Grid.Ans gs -> Some (Grid.is_empty_b gs) | Grid.Unk -> None)
 let has_lines o = match o.v with VP p -> p.lin > 0 | VG _ -> false
 (* a grid whose printed generator system has a point or parameter of divisor <> 1 (trigger of C05-relation-cg-divisor) *)
 let gen_divisor o = match o.v with
@@ -255,6 +259,17 @@ let () =
             | `Exn cls -> report "input/exception" (Fail ("constructor threw " ^ cls))
             | `Ok -> let id, o = parse_st "st" (rd ()) in Hashtbl.replace pool id o;
                      report "input/dd" (want true (dd_ok o)); report "input/OK" (if o.ok = 1 then Ok else Fail "OK() false"))
+       | ["newe"; _; _; _; st; _] ->
+           incr step; incr stats_steps;
+           (match expect_res "newe" with
+            | `Exn cls -> report "input/exception" (Fail ("constructor threw " ^ cls))
+            | `Ok -> let id, o = parse_st "st" (rd ()) in Hashtbl.replace pool id o;
+                     bump ("empty:" ^ o.d ^ ":" ^ st); bump ("emptystate:" ^ o.d ^ ":" ^ state_class o.flags);
+                     (match is_empty_obj o with
+                      | Some true -> ()
+                      | Some false -> genbug "the object is not empty"
+                      | None -> report "input/empty" Undecided);
+                     report "input/dd" (want true (dd_ok o)); report "input/OK" (if o.ok = 1 then Ok else Fail "OK() false"))
        | ["mk"; id; route; src; _] ->
            incr step; incr stats_steps;
            (match expect_res "mk" with
@@ -282,7 +297,7 @@ let () =
               assert (id' = int_of_string id);
               let xo = get (int_of_string x) and yo = get (int_of_string y) in
               let w = dname xo ^ "." ^ w ^ (if cmd = "lim" then "/limited" else "") in
-              let r = { r with w = w; args = [int_of_string x; int_of_string y] } in
+              let r = { r with w = w; args = [int_of_string x; int_of_string y]; tok = t' } in
               Hashtbl.replace pool id' r;
               bump ((if cmd = "lim" then "lim:" else "widen:") ^ w ^ (if t > 0 then "/tok" else if t = 0 then "/tok0" else ""));
               (match incl yo xo with
@@ -291,6 +306,13 @@ let () =
                  let gd = if cmd = "lim" && gen_divisor xo then ":gen-divisor" else "" in
                  report (w ^ (if cmd = "lim" then "/lower" ^ gd else "/upper-bound")) (want true (incl xo r));
                  report (w ^ "/arg-changed") (want true (equiv ya yo));
+                 (* an empty smaller argument: the identity on x, and no token is spent *)
+                 (match is_empty_obj yo with
+                  | Some true ->
+                    bump ("empty-y:" ^ w);
+                    report (w ^ "/empty-argument") (want true (equiv r xo));
+                    if t >= 0 && t' <> t then report (w ^ "/empty-argument-tokens") (Fail (Printf.sprintf "y is empty (verified) but tokens went %d -> %d" t t'))
+                  | _ -> ());
                  report (w ^ "/dd") (want true (dd_ok r));
                  report (w ^ "/OK") (if r.ok = 1 && ya.ok = 1 then Ok else Fail "OK() false after the widening");
                  let plain = (match opt "plain" rest with Some p -> Some (get (int_of_string p)) | None -> None) in
@@ -352,6 +374,10 @@ let () =
              | Some true -> Ok
              | Some false -> Fail "equal arguments (verified) in different lazy states gave different results (verified)"
              | None -> Undecided)
+       | "#!" :: "sametok" :: a :: b :: _ ->
+           incr step;
+           let ao = get (int_of_string a) and bo = get (int_of_string b) in
+           report (ao.w ^ "/value-dependence-tokens:" ^ ao.d) (if ao.tok = bo.tok then Ok else Fail (Printf.sprintf "equal arguments in different states: %d tokens left in one run, %d in the other" ao.tok bo.tok))
        | "#!" :: "samecert" :: a :: b :: _ ->
            incr step;
            (match Hashtbl.find_opt certs (int_of_string a), Hashtbl.find_opt certs (int_of_string b) with
@@ -405,6 +431,7 @@ let () =
                | Some true ->
                  report (k ^ "/upper-bound") (want true (entails xo r));
                  report (k ^ "/arg-changed") (want true (psequiv ya yo));
+                 if yo.ds = [] then begin bump ("empty-y:" ^ k); report (k ^ "/empty-argument") (want true (psequiv r xo)) end;
                  check_ps_certs ("cert/state-independent/" ^ (if r.pd = "G" then "Grid" else "Poly") ^ "/in-powerset") r;
                  (* the per-step hypothesis at powerset level, on certificates recounted from fresh copies:
                     hull certificate decreases, or it is equal and (the multiset decreases or a non-singleton became a singleton) *)
